@@ -31,7 +31,7 @@ Mechanisms: {' | '.join(f"{m['name']} ({m['where']})" for m in a.get('mechanism'
 
 Your scratch git worktree (create it yourself, work ONLY there, never touch /repo or /verif, never look into /verif):
   git -C /repo worktree add --detach {wt} HEAD
-There is no network; build with `cargo ... --offline` inside the worktree (its own `target/` dir). Existing tests: `cd {wt} && cargo test --workspace --no-fail-fast --offline` (47 tests; the machine is shared, so use `-j 6`).
+Other agents work in parallel in their own worktrees of the same repository: NEVER use `git stash` (the stash is shared by all worktrees; keep your changes in patch files and use `git apply` / `git apply -R`), and keep scratch files inside your own worktree or your own `-out` directory. There is no network; build with `cargo ... --offline` inside the worktree (its own `target/` dir). Existing tests: `cd {wt} && cargo test --workspace --no-fail-fast --offline` (47 tests; the machine is shared, so use `-j 6`).
 
 Kinds of change to aim for (use three different ones): the output is laid out differently but denotes the same thing (another but still deterministic order where the statement does not fix one, another constant-pool order, another choice among equivalent encodings such as ldc_w where ldc would do or goto_w where goto fits, another attribute order, other padding-free formatting the format allows); error values and messages reworded, another error reported first when several apply, an error now returned earlier or later in the processing; internal data structures, caches, pre-allocation, iteration strategy or recursion replaced by something equivalent; stricter or more lenient treatment of inputs that are OUTSIDE the property's domain (malformed input where the property only speaks about well-formed input, or the reverse); extra work that does not show in the result; behaviour for aspects the statement explicitly leaves open. The change must alter something an outside observer CAN see (bytes, order, error text, timing of an error, allocation pattern) — not a pure rename of a local variable — but must keep every promise of the statement for every input in its domain. Be careful and honest: if on reflection a change does break the statement for some input, discard it and find another.
 
@@ -56,7 +56,7 @@ Mechanisms: {' | '.join(f"{m['name']} ({m['where']})" for m in a.get('mechanism'
 
 Your scratch git worktree (create it yourself, work ONLY there, never touch /repo or /verif, never look into /verif):
   git -C /repo worktree add --detach {wt} HEAD
-There is no network; build with `cargo ... --offline` inside the worktree (its own `target/` dir). Existing tests: `cd {wt} && cargo test --workspace --no-fail-fast --offline` (47 tests; takes a few minutes to build the first time; the machine is shared, so use `-j 6`).
+Other agents work in parallel in their own worktrees of the same repository: NEVER use `git stash` (the stash is shared by all worktrees; keep your changes in patch files and use `git apply` / `git apply -R`), and keep scratch files inside your own worktree or your own `-out` directory. There is no network; build with `cargo ... --offline` inside the worktree (its own `target/` dir). Existing tests: `cd {wt} && cargo test --workspace --no-fail-fast --offline` (47 tests; takes a few minutes to build the first time; the machine is shared, so use `-j 6`).
 
 {HARD}Requirements for EACH of the two changes (call them A and B; they must use different mechanisms / different code locations, and each must be a small diff, typically 1–15 changed lines, that does not touch tests):
 1. It needs something SPECIFIC to manifest: an unusual but legal input shape, a particular boundary value, a multi-step sequence of operations, or two cooperating sites that each look fine alone. Ordinary inputs and the repository's existing tests must behave exactly as before. Do not break behaviour for all inputs.
